@@ -47,3 +47,415 @@ def price_series(T, lo=-4, hi=16, positive=True):
 
 
 NAMES_PLAIN = ["a", "b", "c", "d", "e", "f", "g", "h", "i", "j"]
+
+
+# ====================================================================== portfolio specs
+class Cx:
+    """generation context"""
+
+    def __init__(self, g, nodes, prices):
+        self.g = g
+        self.T = g["T"]
+        self.nodes = nodes
+        self.prices = prices          # dict name -> list, may be extended (capacity columns)
+        d = tl.dt(g)
+        self.dt0 = float(sorted(d)[len(d) // 2])   # typical step length in main time units
+        self.counter = 0
+
+    def price_names(self):
+        return [k for k in self.prices if k.startswith("p")]
+
+    def new_col(self, values):
+        name = "cap%d" % len([k for k in self.prices if k.startswith("cap")])
+        self.prices[name] = list(values)
+        return name
+
+
+def rate(draw, cx, lo, hi, denom=8):
+    """a rate (per main time unit) whose per-step volume is a dyadic number in [lo,hi]"""
+    q = draw(dyadic(lo, hi, denom))
+    return q / cx.dt0
+
+
+def window(draw, cx, p_none=0.6):
+    """asset window in step offsets (may reach outside the horizon)"""
+    if draw(st.floats(0, 1)) < p_none:
+        return None, None
+    T = cx.T
+    kind = draw(st.sampled_from(["inside", "inside", "straddle_l", "straddle_r", "open_l", "open_r"]))
+    if kind == "inside":
+        a = draw(st.integers(0, T - 1))
+        b = draw(st.integers(a + 1, T))
+        return a, b
+    if kind == "straddle_l":
+        return draw(st.integers(-4, -1)), draw(st.integers(1, T))
+    if kind == "straddle_r":
+        return draw(st.integers(0, T - 1)), draw(st.integers(T + 1, T + 4))
+    if kind == "open_l":
+        return None, draw(st.integers(1, T))
+    return draw(st.integers(0, T - 1)), None
+
+
+def capform(draw, cx, v, sign, allow_forms=True):
+    """capacity value v (a rate) as scalar / interval dict covering everything / price column"""
+    if not allow_forms or v == 0:
+        return v
+    r = draw(st.integers(0, 9))
+    if r < 6:
+        return v
+    if r < 9:
+        cut = draw(st.integers(1, max(1, cx.T - 1)))
+        f = draw(st.sampled_from([0.5, 0.25, 1.0, 0.75]))
+        form = draw(st.sampled_from(["list", "list", "array"]))
+        return {"iv": [[-50, cut, v], [cut, cx.T + 50, v * f]], "form": form}
+    fs = draw(st.lists(st.sampled_from([1.0, 0.5, 0.25, 0.75, 0.0]), min_size=cx.T, max_size=cx.T))
+    return {"col": cx.new_col([v * f for f in fs])}
+
+
+def a_simple(draw, cx, name, node=None, allow_forms=True, sides=None, with_window=True):
+    node = node or draw(st.sampled_from(cx.nodes))
+    sides = sides or draw(st.sampled_from(["buy", "sell", "both", "both"]))
+    lo = -rate(draw, cx, 0.5, 4) if sides in ("sell", "both") else 0.0
+    hi = rate(draw, cx, 0.5, 4) if sides in ("buy", "both") else 0.0
+    a = {"type": "simple", "name": name, "nodes": [node], "price": draw(st.sampled_from(cx.price_names())),
+         "min_cap": capform(draw, cx, lo, -1, allow_forms), "max_cap": capform(draw, cx, hi, 1, allow_forms),
+         "extra_costs": draw(st.one_of(st.just(0.0), dyadic(0, 2))),
+         "wacc": draw(st.sampled_from([0.0, 0.0, 0.05, 0.4]))}
+    if draw(st.integers(0, 9)) == 0 and a["extra_costs"]:
+        a["extra_costs"] = {"iv": [[-50, cx.T + 50, a["extra_costs"]]]}
+    if with_window:
+        a["start"], a["end"] = window(draw, cx)
+    return a
+
+
+def takes(draw, cx, lo, hi, n_max=2):
+    """min/max take lists consistent with some constant rate in [lo,hi] (rates)"""
+    T = cx.T
+    mins, maxs = [], []
+    for _ in range(draw(st.integers(0, n_max))):
+        s = draw(st.integers(-3, T - 1))
+        e = draw(st.integers(max(s + 1, 1), T + 3))
+        if e <= s:
+            e = s + 1
+        dur = sum(tl.dt(cx.g, s, e))
+        r = lo + (hi - lo) * draw(st.sampled_from([0.0, 0.25, 0.5, 0.75, 1.0]))
+        slack = (hi - lo) * dur * draw(st.sampled_from([0.0, 0.125, 0.25]))
+        which = draw(st.sampled_from(["min", "max", "both"]))
+        if which in ("min", "both"):
+            mins.append([s, e, r * dur - slack])
+        if which in ("max", "both"):
+            maxs.append([s, e, r * dur + slack])
+    return (mins or None), (maxs or None)
+
+
+def a_contract(draw, cx, name, node=None):
+    a = a_simple(draw, cx, name, node, allow_forms=False)
+    a["type"] = "contract"
+    a["min_take"], a["max_take"] = takes(draw, cx, a["min_cap"], a["max_cap"])
+    return a
+
+
+def a_multi(draw, cx, name):
+    k = draw(st.integers(1, min(3, len(cx.nodes))))
+    nodes = draw(st.permutations(cx.nodes))[:k]
+    a = a_simple(draw, cx, name, nodes[0], allow_forms=False)
+    a["type"] = "multi"
+    a["nodes"] = list(nodes)
+    a["factors"] = [draw(st.sampled_from([1.0, 1.0, 0.5, -0.5, 2.0, -1.0, 0.25])) for _ in nodes]
+    a["min_take"], a["max_take"] = takes(draw, cx, a["min_cap"], a["max_cap"], n_max=1)
+    return a
+
+
+def a_transport(draw, cx, name, ext=None):
+    n0, n1 = draw(st.permutations(cx.nodes))[:2]
+    ext = draw(st.booleans()) if ext is None else ext
+    neg = draw(st.integers(0, 5)) == 0
+    cap = rate(draw, cx, 0.5, 4)
+    a = {"type": "exttransport" if ext else "transport", "name": name, "nodes": [n0, n1],
+         "min_cap": -cap if neg else 0.0, "max_cap": 0.0 if neg else cap,
+         "efficiency": draw(st.sampled_from([1.0, 1.0, 0.5, 0.75, 0.875, 1.25])),
+         "costs_const": draw(st.one_of(st.just(0.0), dyadic(0, 2))),
+         "costs_time_series": draw(st.one_of(st.none(), st.sampled_from(cx.price_names()))),
+         "wacc": draw(st.sampled_from([0.0, 0.0, 0.05, 0.4]))}
+    if a["costs_time_series"] is not None and draw(st.booleans()):
+        a["costs_time_series"] = None
+    a["start"], a["end"] = window(draw, cx)
+    if ext:
+        # takes refer to the quantity taken FROM node 1 (= flow), same sign as the flow
+        a["min_take"], a["max_take"] = takes(draw, cx, a["min_cap"], a["max_cap"], n_max=1)
+    return a
+
+
+def a_storage(draw, cx, name, two_nodes=None, mip=False, blocks=False, node=None):
+    if two_nodes is None:
+        two_nodes = len(cx.nodes) >= 2 and draw(st.integers(0, 3)) == 0
+    if two_nodes:
+        nodes = list(draw(st.permutations(cx.nodes))[:2])
+    else:
+        nodes = [node or draw(st.sampled_from(cx.nodes))]
+    size = draw(dyadic(1, 8))
+    start = draw(st.sampled_from([0.0, 0.0, 0.5, 1.0])) * size * draw(st.sampled_from([1.0, 0.5]))
+    end = start if draw(st.booleans()) else draw(st.sampled_from([0.0, 0.25, 0.5, 1.0])) * size
+    inflow = draw(st.sampled_from([0.0, 0.0, 0.0, 0.125, 0.25, 0.5]))
+    cap_out_q = draw(dyadic(0.5, 4))
+    if inflow > cap_out_q:
+        inflow = cap_out_q
+    a = {"type": "storage", "name": name, "nodes": nodes, "size": size,
+         "cap_in": rate(draw, cx, 0.5, 4), "cap_out": cap_out_q / cx.dt0,
+         "start_level": start, "end_level": end,
+         "eff_in": draw(st.sampled_from([1.0, 1.0, 0.5, 0.75, 0.875])),
+         "inflow": inflow / cx.dt0,
+         "cost_in": draw(st.sampled_from([0.0, 0.0, 0.125, 0.5])),
+         "cost_out": draw(st.sampled_from([0.0, 0.0, 0.125, 0.5])),
+         "cost_store": draw(st.sampled_from([0.0, 0.0, 0.0625, 0.25])) / cx.dt0,
+         "price": draw(st.one_of(st.none(), st.none(), st.none(), st.sampled_from(cx.price_names()))),
+         "wacc": draw(st.sampled_from([0.0, 0.0, 0.05, 0.4]))}
+    a["start"], a["end"] = window(draw, cx, p_none=0.7)
+    if mip:
+        a["no_simult"] = draw(st.booleans())
+        if draw(st.booleans()) and a["start_level"] == 0 and a["inflow"] == 0:
+            a["max_store_duration"] = (draw(st.integers(1, 4)) + 0.5) * cx.dt0
+    if blocks:
+        a["block"] = draw(st.integers(2, max(2, cx.T // 2 + 1)))
+    return a
+
+
+def a_orderbook(draw, cx, name, node=None, n_max=6):
+    T = cx.T
+    node = node or draw(st.sampled_from(cx.nodes))
+    orders = []
+    for _ in range(draw(st.integers(1, n_max))):
+        where = draw(st.sampled_from(["in", "in", "in", "straddle", "before", "after"]))
+        if where == "in":
+            s = draw(st.integers(0, T - 1))
+            e = draw(st.integers(s + 1, T))
+        elif where == "straddle":
+            s = draw(st.integers(-3, T - 1))
+            e = draw(st.integers(max(s + 1, T), T + 3)) if s >= 0 else draw(st.integers(1, T + 2))
+        elif where == "before":
+            s = draw(st.integers(-6, -2))
+            e = draw(st.integers(s + 1, 0))
+        else:
+            s = draw(st.integers(T, T + 3))
+            e = draw(st.integers(s + 1, T + 6))
+        capa = rate(draw, cx, 0.5, 3) * draw(st.sampled_from([1, -1]))
+        if draw(st.integers(0, 11)) == 0:
+            capa = 0.0
+        orders.append([s, e, capa, draw(dyadic(0, 12))])
+    return {"type": "orderbook", "name": name, "nodes": [node], "orders": orders,
+            "full_exec": False, "wacc": draw(st.sampled_from([0.0, 0.0, 0.05, 0.4]))}
+
+
+def a_plant(draw, cx, name, fuel=None):
+    """a simple MIP plant (the detailed unit-commitment space is C06's)"""
+    node = draw(st.sampled_from(cx.nodes))
+    nodes = [node]
+    others = [n for n in cx.nodes if n != node]
+    if fuel is None:
+        fuel = bool(others) and draw(st.booleans())
+    maxc = rate(draw, cx, 2, 4)
+    minc = maxc * draw(st.sampled_from([0.25, 0.5]))
+    a = {"type": "plant", "name": name, "nodes": nodes, "price": draw(st.sampled_from(cx.price_names())),
+         "min_cap": minc, "max_cap": maxc, "extra_costs": 0.0,
+         "start_costs": draw(st.sampled_from([0.0, 1.0, 4.0])),
+         "running_costs": draw(st.sampled_from([0.0, 0.5])) / cx.dt0,
+         "min_runtime": draw(st.sampled_from([0, 0, 1.5, 2.5])) * cx.dt0,
+         "wacc": 0.0}
+    if fuel and others:
+        a["nodes"] = [node, draw(st.sampled_from(others))]
+        a["fuel_efficiency"] = draw(st.sampled_from([1.0, 0.5, 0.75]))
+        a["consumption_if_on"] = draw(st.sampled_from([0.0, 0.25])) / cx.dt0
+        a["start_fuel"] = draw(st.sampled_from([0.0, 1.0]))
+    return a
+
+
+def markets(cx, prefix="m", lo_price=0.5, hi_price=14.0, cap_q=64.0):
+    """a buy-dear / sell-cheap pair with large capacity at every node: feasibility by construction"""
+    out = []
+    cx.prices["pm_hi"] = [hi_price] * cx.T
+    cx.prices["pm_lo"] = [lo_price] * cx.T
+    for i, n in enumerate(cx.nodes):
+        out.append({"type": "simple", "name": "%sb%d" % (prefix, i), "nodes": [n], "price": "pm_hi",
+                    "min_cap": 0.0, "max_cap": cap_q / cx.dt0, "extra_costs": 0.0, "wacc": 0.0})
+        out.append({"type": "simple", "name": "%ss%d" % (prefix, i), "nodes": [n], "price": "pm_lo",
+                    "min_cap": -cap_q / cx.dt0, "max_cap": 0.0, "extra_costs": 0.0, "wacc": 0.0})
+    return out
+
+
+CLASSES_LP = ["simple", "simple", "contract", "transport", "storage", "storage", "multi", "orderbook"]
+
+
+def draw_asset(draw, cx, cls, name):
+    if cls == "simple":
+        return a_simple(draw, cx, name)
+    if cls == "contract":
+        return a_contract(draw, cx, name)
+    if cls == "multi":
+        return a_multi(draw, cx, name)
+    if cls == "transport":
+        if len(cx.nodes) < 2:
+            return a_simple(draw, cx, name)
+        return a_transport(draw, cx, name)
+    if cls == "storage":
+        return a_storage(draw, cx, name)
+    if cls == "storage_mip":
+        return a_storage(draw, cx, name, mip=True)
+    if cls == "storage_blocks":
+        return a_storage(draw, cx, name, blocks=True)
+    if cls == "orderbook":
+        return a_orderbook(draw, cx, name)
+    if cls == "orderbook_full":
+        a = a_orderbook(draw, cx, name, n_max=4)
+        a["full_exec"] = True
+        return a
+    if cls == "plant":
+        return a_plant(draw, cx, name)
+    raise ValueError(cls)
+
+
+@st.composite
+def portfolios(draw, classes=None, min_assets=1, max_assets=5, max_nodes=3, with_markets=0.85,
+               grid=None, max_T=12, min_T=2, uniform_only=False, positive_prices=True):
+    g = draw(grid) if grid is not None else draw(grids(min_T=min_T, max_T=max_T, uniform_only=uniform_only))
+    nn = draw(st.integers(1, max_nodes))
+    nodes = ["n%d" % i for i in range(nn)]
+    prices = {}
+    for i in range(draw(st.integers(1, 3))):
+        prices["p%d" % i] = draw(price_series(g["T"], positive=positive_prices))
+    cx = Cx(g, nodes, prices)
+    classes = classes or CLASSES_LP
+    n = draw(st.integers(min_assets, max_assets))
+    assets = []
+    for i in range(n):
+        cls = draw(st.sampled_from(classes))
+        assets.append(draw_asset(draw, cx, cls, "a%d" % i))
+    mk = draw(st.floats(0, 1)) < with_markets
+    if mk:
+        assets += markets(cx)
+    return {"grid": g, "prices": cx.prices, "assets": assets, "markets": mk}
+
+
+# ====================================================================== wrappers and special variants
+def a_scaled(draw, cx, name, base_cls=None):
+    base_cls = base_cls or draw(st.sampled_from(["simple", "storage", "transport", "contract"]))
+    base = draw_asset(draw, cx, base_cls, name + "_base")
+    a = {"type": "scaled", "name": name, "base": base,
+         "max_scale": draw(st.sampled_from([1.0, 2.0, 4.0])),
+         "norm_scale": draw(st.sampled_from([1.0, 2.0, 0.5])),
+         "fix_costs": draw(st.sampled_from([0.0, 0.125, 0.5, 2.0])) / cx.dt0,
+         "wacc": 0.0}
+    a["min_scale"] = a["max_scale"] * draw(st.sampled_from([0.0, 0.0, 0.5, 1.0]))
+    a["start"], a["end"] = window(draw, cx, p_none=0.75)
+    return a
+
+
+def a_structured(draw, cx, name, with_window=True):
+    ext = [draw(st.sampled_from(cx.nodes))]
+    internal = [name + "_i0"] + ([name + "_i1"] if draw(st.booleans()) else [])
+    cin = Cx(cx.g, ext + internal, cx.prices)
+    inner = []
+    # a source / sink at the first internal node and a link to the external node
+    inner.append(a_simple(draw, cin, name + "_x0", node=internal[0], allow_forms=False))
+    tr = a_transport(draw, cin, name + "_x1", ext=False)
+    tr["nodes"] = [internal[0], ext[0]] if draw(st.booleans()) else [ext[0], internal[0]]
+    inner.append(tr)
+    for i in range(draw(st.integers(0, 2))):
+        cls = draw(st.sampled_from(["simple", "storage", "transport", "contract"]))
+        inner.append(draw_asset(draw, cin, cls, "%s_x%d" % (name, i + 2)))
+    a = {"type": "structured", "name": name, "nodes": ext, "assets": inner, "wacc": 0.0}
+    if with_window:
+        a["start"], a["end"] = window(draw, cx, p_none=0.7)
+    return a
+
+
+def a_chp(draw, cx, name):
+    if len(cx.nodes) < 2:
+        return a_plant(draw, cx, name, fuel=False)
+    nodes = list(draw(st.permutations(cx.nodes)))
+    k = 3 if (len(nodes) >= 3 and draw(st.booleans())) else 2
+    maxc = rate(draw, cx, 2, 4)
+    a = {"type": "chp", "name": name, "nodes": nodes[:k], "price": draw(st.sampled_from(cx.price_names())),
+         "min_cap": maxc * draw(st.sampled_from([0.0, 0.25, 0.5])), "max_cap": maxc, "extra_costs": 0.0,
+         "conversion_factor_power_heat": draw(st.sampled_from([1.0, 0.5, 0.25])),
+         "max_share_heat": draw(st.sampled_from([1.0, 0.5, 2.0])),
+         "start_costs": draw(st.sampled_from([0.0, 1.0, 4.0])),
+         "running_costs": draw(st.sampled_from([0.0, 0.5])) / cx.dt0,
+         "min_runtime": draw(st.sampled_from([0, 0, 1.5])) * cx.dt0, "wacc": 0.0}
+    if k == 3:
+        a["fuel_efficiency"] = draw(st.sampled_from([1.0, 0.5, 0.75]))
+        a["consumption_if_on"] = draw(st.sampled_from([0.0, 0.25])) / cx.dt0
+        a["start_fuel"] = draw(st.sampled_from([0.0, 1.0]))
+    return a
+
+
+def coarsen(draw, cx, a):
+    """give asset a a coarser frequency (needs a uniform grid; EAO averages prices unweighted)"""
+    m = draw(st.sampled_from([2, 2, 3, 4]))
+    a["freq"] = tl.freq_multiple(cx.g["freq"], m)
+    a["wacc"] = 0.0
+    a["_m"] = m
+    # windows on whole coarse steps (counted from the asset start)
+    s = a.get("start")
+    if s is not None or a.get("end") is not None:
+        s0 = s if s is not None else 0
+        n = draw(st.integers(1, max(1, (cx.T - max(s0, 0)) // m + 1)))
+        a["start"] = s0
+        a["end"] = s0 + n * m
+    return a
+
+
+def periodize(draw, cx, a):
+    p = draw(st.sampled_from([2, 2, 3, 4]))
+    a["periodicity"] = tl.freq_multiple(cx.g["freq"], p)
+    a["_p"] = p
+    if draw(st.booleans()):
+        q = draw(st.sampled_from([2, 3]))
+        a["periodicity_duration"] = tl.freq_multiple(cx.g["freq"], p * q)
+        a["_q"] = q
+    a["wacc"] = 0.0
+    return a
+
+
+CLASSES_ALL = ["simple", "simple", "contract", "transport", "storage", "storage", "multi", "orderbook",
+               "scaled", "structured", "plant", "chp", "coarse", "coarse", "periodic", "periodic",
+               "storage_mip", "orderbook_full"]
+
+
+def draw_any(draw, cx, cls, name):
+    if cls == "scaled":
+        return a_scaled(draw, cx, name)
+    if cls == "structured":
+        return a_structured(draw, cx, name)
+    if cls == "chp":
+        return a_chp(draw, cx, name)
+    if cls in ("coarse", "periodic"):
+        base = draw(st.sampled_from(["simple", "simple", "storage", "transport", "contract", "multi"]))
+        a = draw_asset(draw, cx, base, name)
+        for k in ("min_cap", "max_cap", "extra_costs"):
+            if isinstance(a.get(k), dict):   # scalar limits on merged variables
+                a[k] = a[k]["iv"][0][2] if "iv" in a[k] else 0.0
+        a.pop("min_take", None)
+        a.pop("max_take", None)
+        return coarsen(draw, cx, a) if cls == "coarse" else periodize(draw, cx, a)
+    return draw_asset(draw, cx, cls, name)
+
+
+@st.composite
+def portfolios_all(draw, classes=None, min_assets=1, max_assets=5, max_nodes=3, with_markets=0.9,
+                   max_T=12, min_T=2):
+    classes = classes or CLASSES_ALL
+    n = draw(st.integers(min_assets, max_assets))
+    chosen = [draw(st.sampled_from(classes)) for _ in range(n)]
+    need_uniform = any(c in ("coarse", "periodic", "plant", "chp") for c in chosen)
+    g = draw(grids(min_T=min_T, max_T=max_T, uniform_only=need_uniform))
+    nn = draw(st.integers(1, max_nodes))
+    nodes = ["n%d" % i for i in range(nn)]
+    prices = {}
+    for i in range(draw(st.integers(1, 3))):
+        prices["p%d" % i] = draw(price_series(g["T"]))
+    cx = Cx(g, nodes, prices)
+    assets = [draw_any(draw, cx, c, "a%d" % i) for i, c in enumerate(chosen)]
+    mk = draw(st.floats(0, 1)) < with_markets
+    if mk:
+        assets += markets(cx)
+    return {"grid": g, "prices": cx.prices, "assets": assets, "markets": mk}
